@@ -313,3 +313,11 @@ MUTANTS = [
     M("c02-live-no-delegation", BASE, "                has_delegation, match = event.has_tag(\"delegation\", query.authors)\n                if match:\n                    matched.add(True)\n", "", "C02.authors"),
 ]
 EQUIVS = []
+
+# functions whose syntactic mutants are used for the thorough tier's sensitivity figure (sa/automut.py)
+ANCHORS = [
+    "nostr_relay.storage.kv:compile_match_from_query",
+    "nostr_relay.storage.kv:planner",
+    "nostr_relay.storage.kv:Index.write",
+    "nostr_relay.storage.db:Subscription.evaluate_filter",
+]
